@@ -689,8 +689,9 @@ func getParamConstraintType(constraintPart string) TypeConstraint {
 func (c *Constraint) CheckConstraint(param string) bool {
 	// First check if there's a custom constraint with the same name
 	// This allows custom constraints to override built-in constraints
+	// (the pattern, and with it the constraint name, is lower-cased unless CaseSensitive is set)
 	for _, cc := range c.customConstraints {
-		if cc.Name() == c.Name {
+		if strings.EqualFold(cc.Name(), c.Name) {
 			return cc.Execute(param, c.Data...)
 		}
 	}
